@@ -498,7 +498,15 @@ func (l *Local) Release(ctx context.Context, cni *daemon.CNI, request NetworkRes
 
 	res := request.(*LocalIPResource)
 
-	if l.eni == nil || l.eni.ID != res.ENI.ID {
+	if l.eni == nil {
+		return false, nil
+	}
+	if res.ENI.ID == "" {
+		// legacy record, only the mac is known
+		if l.eni.MAC != res.ENI.MAC {
+			return false, nil
+		}
+	} else if l.eni.ID != res.ENI.ID {
 		return false, nil
 	}
 
